@@ -164,6 +164,16 @@ func (x *Exec) intrinsic(fr *Frame, st *State, ins ssa.Instruction, cc *ssa.Call
 		default:
 			panic(engErr("vs_modifies: unsupported target type %s", mi.X.Type()))
 		}
+	case "vs_callOrder":
+		nC, ok := cc.Args[0].(*ssa.Const)
+		if !ok {
+			panic(engErr("vs_callOrder: the callee name must be a constant"))
+		}
+		if rec := st.calls[constString(nC)]; rec != nil && rec.seq.S != "" {
+			fr.regs[res] = ite(rec.called, rec.seq, intLit(0))
+		} else {
+			fr.regs[res] = intLit(0)
+		}
 	case "vs_called", "vs_callResult", "vs_callArg":
 		// call history of the function under verification (evaluated in the state of the clause)
 		nC, ok := cc.Args[0].(*ssa.Const)
